@@ -358,7 +358,8 @@ theorem find?_isSome_of_key {l : List (Nat × Entry)} {k : Nat} {e : Entry} (h :
 
 include ht hr hl hW in
 /-- The conversion state of the split registry: the submodules, converted last, are all cached. -/
-theorem conv_split_state :
+theorem conv_split_state
+    (hall : ∀ sb ∈ s.subs, (pp s R R' opts plug (entryFuel R') [] s.owner.stmt).2.contains sb.name = true) :
     SInv s R R' opts plug ((mkeysOf R).map (IncludeLink.repl s)) (tstate R' opts plug) := by
   have hM := conv_split_mods opts plug ht hr hl hW
   unfold tstate
@@ -375,7 +376,7 @@ theorem conv_split_state :
     intro st X hX hst
     subst hst
     have hXs : X ∈ s.subs := skeys_split hr X hX
-    obtain ⟨e, he⟩ := hsubs X hXs
+    obtain ⟨e, he⟩ := hsubs X hXs (hall X hXs)
     obtain ⟨p, hp, _, _⟩ := find?_isSome_of_key he
     obtain ⟨f, hf⟩ := entryFuel_succ R'
     rw [hf, toEntry_cached _ f X [] X.stmt [] st p (sub_kw_mod ht hXs) hp]
